@@ -7,11 +7,13 @@ from pyvc.interp import Obj, Builtin, BoundMethod, Closure
 def make_script_registry(module_name):
     SCRIPTS = []
 
-    def script(props, name, variants=((),)):
+    def script(props, name, variants=((),), optional=False):
+        """optional=True: an unbounded proof that has structure-bounded siblings / bounded stand-ins for the same clauses; if the
+        current code uses a construct outside the VC generator's subset the script is skipped (reported), not an engine error"""
         def deco(f):
             for v in variants:
                 SCRIPTS.append({"props": props, "name": name + ("" if not v else "[" + ",".join(map(str, v)) + "]"),
-                                "fn": f, "variant": v, "module": module_name})
+                                "fn": f, "variant": v, "module": module_name, "optional": optional})
             return f
         return deco
     return SCRIPTS, script
